@@ -446,6 +446,7 @@ pub fn run(report: &Report) {
     explore::<U32U64>(report, &range_alphabet12::<U32U64>(), if q { 3 } else { 5 }, "a12@P32");
     explore::<U32U64>(report, &small_alphabet::<U32U64>(), if q { 3 } else { 4 }, "mixed-precision-14");
     explore::<U64U128>(report, &small_alphabet::<U64U128>(), if q { 3 } else { 4 }, "mixed-precision-14");
+    super::pyfront::sweep(report, "views", if q { 3 } else { 4 }, "every constructor that takes compressed words (8) on every word string up to the listed length over 6 words, and every call form that takes symbol / parameter arrays (3 coders x 2 forms) on every message up to length 4: a negative-stride view, a stride-2 view and an interior slice must be read like a contiguous copy", &["RangeDecoder(words)", "RangeEncoder.encode"], &[]);
     super::pyfront::sweep(report, "range_histories", if q { 4 } else { 5 },
         "Python RangeEncoder: every sequence of encode calls up to the listed depth over 19 calls (single symbol, iid array, per-symbol parameter arrays incl. one row and no rows, empty iid array); at every node the words are decoded through get_decoder() and RangeDecoder(get_compressed()), one symbol at a time and in the call forms of the encoder",
         &[], &[]);
